@@ -63,6 +63,10 @@ struct G
     const void* waiting[kMaxClients];
     int      held[kMaxClients];
     int      held_own[kMaxClients]; // holds the container's own mutex (address inside the object)
+    int      locks_in_op[kMaxClients]; // acquisitions of the container's own mutex within the current call
+    int      dyn_stall_client;
+    uint32_t dyn_stall_until;
+    uint32_t relock;
     int      cur_op[kMaxClients];
     Owned    owned[kMaxOwned];
     int      nowned;
@@ -199,10 +203,15 @@ int choose(int c, bool force_switch = false)
         // stall fault: the victim is denied the baton while the window is open
         int  f[kMaxClients], nf = 0;
         bool stalled = false;
-        if (g.spec.stall_client >= 0 && k >= g.spec.stall_from && k < g.spec.stall_from + g.spec.stall_len && nr > 1)
+        int victim = -1;
+        if (g.dyn_stall_client >= 0 && k < g.dyn_stall_until)
+            victim = g.dyn_stall_client;
+        else if (g.spec.stall_client >= 0 && k >= g.spec.stall_from && k < g.spec.stall_from + g.spec.stall_len)
+            victim = g.spec.stall_client;
+        if (victim >= 0 && nr > 1)
         {
             for (int i = 0; i < nr; ++i)
-                if (r[i] != g.spec.stall_client)
+                if (r[i] != victim)
                     f[nf++] = r[i];
                 else
                     stalled = true;
@@ -324,6 +333,9 @@ void begin_run(const Spec& spec)
     g.preempt = g.stalls = g.blocked = 0;
     g.fine_seen = g.fine_next = g.fine_fired = 0;
     g.susp_seen = g.susp_next = g.susp_fired = 0;
+    g.dyn_stall_client = -1;
+    g.dyn_stall_until  = 0;
+    g.relock           = 0;
     g.nev                            = 0;
     g.nowned                         = 0;
     g.thash                          = 0xcbf29ce484222325ULL;
@@ -336,6 +348,7 @@ void begin_run(const Spec& spec)
         g.waiting[i] = nullptr;
         g.held[i]    = 0;
         g.held_own[i] = 0;
+        g.locks_in_op[i] = 0;
         g.cur_op[i]  = -1;
         g.prio[i]    = spec.prio[i];
     }
@@ -410,7 +423,8 @@ void client_leave()
 
 void point_invoke(int op)
 {
-    g.cur_op[tls_client] = op;
+    g.cur_op[tls_client]      = op;
+    g.locks_in_op[tls_client] = 0;
     point(EV_INVOKE, op, 0);
 }
 void point_return(int op)
@@ -432,6 +446,7 @@ const int32_t* chosen(size_t* n)
 uint32_t preemptions() { return g.preempt; }
 uint32_t stalls_fired() { return g.stalls; }
 uint32_t blocked_fired() { return g.blocked; }
+uint32_t relock_fired() { return g.relock; }
 uint32_t fine_fired() { return g.fine_fired; }
 uint32_t susp_seen() { return g.susp_seen; }
 uint32_t susp_fired() { return g.susp_fired; }
@@ -489,6 +504,14 @@ extern "C"
             if (o >= 0 && o != self)
                 ++g.blocked;
             g.waiting[self] = m;
+            if (in_range && g.locks_in_op[self] > 0 && g.spec.relock_stall > 0 && g.spec.mode != 1)
+            {
+                // the call gave the lock up and wants it again: whatever it learned under the first
+                // acquisition can go stale now; let the others run for a while
+                ++g.relock;
+                g.dyn_stall_client = self;
+                g.dyn_stall_until  = g.ndec + g.spec.relock_stall;
+            }
             point(in_range ? EV_LOCK_REQ : EV_BLOCKED, g.cur_op[self], 0);
             g.waiting[self] = nullptr;
         }
@@ -498,6 +521,7 @@ extern "C"
         if (in_range)
         {
             ++g.held_own[self];
+            ++g.locks_in_op[self];
             log_event(self, EV_LOCK_ACQ, g.cur_op[self], 0);
         }
         return r;
